@@ -35,14 +35,22 @@ impl Compiler {
     }
 
     pub fn mark_local_captured(&mut self, register: u8) {
-        for local in self.locals.iter_mut() {
+        let mut owner = None;
+        for (i, local) in self.locals.iter_mut().enumerate() {
             if local.register == register {
                 local.is_captured = true;
+                owner = Some(i);
                 break;
             }
         }
 
-        if let Some(scope) = self.scopes.last_mut()
+        // the upvalue stays open until the scope that DECLARES the local ends: closing it at
+        // the end of the (inner) scope the closure is created in would give the closure a copy
+        let scope = match owner {
+            Some(i) => self.scopes.iter_mut().rev().find(|s| s.start <= i),
+            None => self.scopes.last_mut(),
+        };
+        if let Some(scope) = scope
             && !scope.captured_registers.contains(&register)
         {
             scope.captured_registers.push(register);
